@@ -879,6 +879,8 @@ ref_xcbc_keys(const uint8_t key[16], uint8_t k1[16], uint8_t k2[16], uint8_t k3[
         k->enc(c3, k3);
         delete k;
 }
+void ref_sm3_init(uint32_t st[8]);
+void ref_sm3_compress(uint32_t V[8], const uint8_t block[64]);
 size_t
 ref_hmac_pad_state(HashId h, const uint8_t *key, size_t key_len, uint8_t pad, uint8_t *out)
 {
@@ -930,6 +932,87 @@ ref_hmac_pad_state(HashId h, const uint8_t *key, size_t key_len, uint8_t pad, ui
                 memcpy(out, w, 16);
                 return 16;
         }
+        case H_SM3: {
+                uint32_t st[8];
+                ref_sm3_init(st);
+                ref_sm3_compress(st, k.data());
+                memcpy(out, st, 32);
+                return 32;
+        }
         default: return 0;
         }
+}
+
+// ---- SM3 compression function (GB/T 32905-2016), needed for the HMAC-SM3 pad states; admitted against
+// libcrypto's SM3 by ref_sm3_selfcheck() (tools/ref_admit.sh and at start-up of the C11 check)
+static inline uint32_t rol32(uint32_t x, unsigned n) { n &= 31; return n ? (x << n) | (x >> (32 - n)) : x; }
+void
+ref_sm3_init(uint32_t st[8])
+{
+        static const uint32_t iv[8] = { 0x7380166f, 0x4914b2b9, 0x172442d7, 0xda8a0600, 0xa96f30bc, 0x163138aa, 0xe38dee4d, 0xb0fb0e4e };
+        memcpy(st, iv, sizeof iv);
+}
+void
+ref_sm3_compress(uint32_t V[8], const uint8_t block[64])
+{
+        uint32_t W[68], W1[64];
+        for (int j = 0; j < 16; j++)
+                W[j] = ((uint32_t) block[4 * j] << 24) | ((uint32_t) block[4 * j + 1] << 16) | ((uint32_t) block[4 * j + 2] << 8) | block[4 * j + 3];
+        auto P1 = [](uint32_t x) { return x ^ rol32(x, 15) ^ rol32(x, 23); };
+        auto P0 = [](uint32_t x) { return x ^ rol32(x, 9) ^ rol32(x, 17); };
+        for (int j = 16; j < 68; j++)
+                W[j] = P1(W[j - 16] ^ W[j - 9] ^ rol32(W[j - 3], 15)) ^ rol32(W[j - 13], 7) ^ W[j - 6];
+        for (int j = 0; j < 64; j++)
+                W1[j] = W[j] ^ W[j + 4];
+        uint32_t A = V[0], B = V[1], C = V[2], D = V[3], E = V[4], F = V[5], G = V[6], H = V[7];
+        for (int j = 0; j < 64; j++) {
+                const uint32_t T = j < 16 ? 0x79cc4519u : 0x7a879d8au;
+                const uint32_t SS1 = rol32(rol32(A, 12) + E + rol32(T, (unsigned) j), 7);
+                const uint32_t SS2 = SS1 ^ rol32(A, 12);
+                const uint32_t FF = j < 16 ? (A ^ B ^ C) : ((A & B) | (A & C) | (B & C));
+                const uint32_t GG = j < 16 ? (E ^ F ^ G) : ((E & F) | (~E & G));
+                const uint32_t TT1 = FF + D + SS2 + W1[j];
+                const uint32_t TT2 = GG + H + SS1 + W[j];
+                D = C;
+                C = rol32(B, 9);
+                B = A;
+                A = TT1;
+                H = G;
+                G = rol32(F, 19);
+                F = E;
+                E = P0(TT2);
+        }
+        V[0] ^= A; V[1] ^= B; V[2] ^= C; V[3] ^= D; V[4] ^= E; V[5] ^= F; V[6] ^= G; V[7] ^= H;
+}
+bool
+ref_sm3_selfcheck()
+{
+        // hash messages of several lengths with the compression function + hand-made padding; compare with libcrypto
+        for (size_t len : { (size_t) 0, (size_t) 3, (size_t) 55, (size_t) 56, (size_t) 64, (size_t) 119, (size_t) 200 }) {
+                Bytes m(len);
+                for (size_t i = 0; i < len; i++)
+                        m[i] = (uint8_t) (i * 7 + len);
+                Bytes p = m;
+                p.push_back(0x80);
+                while (p.size() % 64 != 56)
+                        p.push_back(0);
+                const uint64_t bits = (uint64_t) len * 8;
+                for (int i = 7; i >= 0; i--)
+                        p.push_back((uint8_t) (bits >> (8 * i)));
+                uint32_t st[8];
+                ref_sm3_init(st);
+                for (size_t o = 0; o < p.size(); o += 64)
+                        ref_sm3_compress(st, p.data() + o);
+                uint8_t dg[32];
+                for (int i = 0; i < 8; i++) {
+                        dg[4 * i] = (uint8_t) (st[i] >> 24);
+                        dg[4 * i + 1] = (uint8_t) (st[i] >> 16);
+                        dg[4 * i + 2] = (uint8_t) (st[i] >> 8);
+                        dg[4 * i + 3] = (uint8_t) st[i];
+                }
+                Bytes want = ref_hash(H_SM3, m.data(), len);
+                if (want.size() != 32 || memcmp(want.data(), dg, 32) != 0)
+                        return false;
+        }
+        return true;
 }
